@@ -258,6 +258,23 @@ func runC12(r *core.Run) {
 			return core.Outcome{Class: "panics", Nontrivial: true, Evals: 2}
 		})
 
+	bufferReuse(r, append(enum.AllStrings("ACGT", 3), "GATTACCA", "GATTGCCA", "acgtnNACGT", "TTTTTTTT", "GATTAC"), []string{"ReverseComplement", "ReverseComplementString", "CanonicalSubsequences k=1", "CanonicalSubsequences k=2", "CanonicalSubsequences k=3"},
+		func(fn string, in []byte) string {
+			switch fn {
+			case "ReverseComplement":
+				return string(sequtil.ReverseComplement(nil, in))
+			case "ReverseComplementString":
+				return sequtil.ReverseComplementString(string(in))
+			}
+			var k int
+			fmt.Sscanf(fn, "CanonicalSubsequences k=%d", &k)
+			var items []string
+			for km := range sequtil.CanonicalSubsequences(in, k) {
+				items = append(items, string(km))
+			}
+			return strings.Join(items, ",")
+		})
+
 	core.Clause(r, "dst-contents", core.Opts{Rule: dstRule},
 		genDstCases([]string{"", "A", "n", "AACTTGGGn", "acgtnNACGTTTgacN", "ACXG", "\x00", "AC\x00", "ACG\xff"}),
 		checkDstContract("ReverseComplement", sequtil.ReverseComplement, ref.RevComp))
